@@ -19,7 +19,7 @@ EVAL = ['runs_two_chunk', 'runs_one_byte', 'runs_random_partition', 'replays']
 DISTINCT = ['input']
 REQUIRED = ['inputs', 'inputs_accepted', 'inputs_other', 'runs_two_chunk', 'runs_one_byte', 'runs_random_partition', 'scenarios', 'replays', 'runs_faulted', 'runs_inserted_alert',
             'inputs_skey_pkcs8_decoded', 'inputs_skey_pkcs8_other', 'cmp_pem_no_destination', 'pem_events_compared']
-EXHAUSTIVE = 'every two-chunk split point of every decoder input'
+EXHAUSTIVE = 'every two-chunk split point of every decoder input of up to 6000 bytes (the three 22 kB chains and their mutants: about 300 split points each, see h_chunk.c)'
 NW = 16
 
 
